@@ -24,7 +24,7 @@ pub enum Effect {
     /// `-rel(X, X) <- rel(X, X)`: delete every tuple whose two columns are equal
     CondDeleteDiag { rel: String },
     /// for every tuple matching the condition: delete it and insert the same tuple with column 1 + add
-    Update { rel: String, col: usize, cmp: String, k: i64, add: i64 },
+    Update { rel: String, col: usize, cmp: String, k: i64, add: i64, #[serde(default)] set_to: Option<i64> },
     Rule { name: String, text: String },
     DropRule { name: String },
     ClearRule { name: String },
@@ -502,7 +502,7 @@ impl<'a> X<'a> {
                     return Err(fail("report_mismatch", step, format!("conditional delete (repeated variable) on {rel}: model says {n}; messages {msgs:?}")));
                 }
             }
-            Effect::Update { rel, col, cmp, k: kk, add } => {
+            Effect::Update { rel, col, cmp, k: kk, add, set_to } => {
                 let mut d = 0;
                 if let Some(r) = k.rels.get_mut(rel) {
                     let matched: Vec<T> = r.iter().filter(|t| t.get(*col).and_then(as_i64).is_some_and(|v| cmp_holds(v, cmp, *kk))).cloned().collect();
@@ -511,7 +511,7 @@ impl<'a> X<'a> {
                         let mut nt = t.clone();
                         if let Some(y) = nt.get(1).and_then(as_i64) {
                             // arithmetic yields Int64 whatever the width of its operand (calibrated on the unchanged tree)
-                            nt[1] = V::I64(y + add);
+                            nt[1] = V::I64(set_to.unwrap_or(y + add));
                         }
                         ins.push(nt);
                     }
